@@ -207,10 +207,15 @@ def option_writer(ctx, chk):
             which = None
             for _, ce, taken, listed in conds:
                 c = ps.strip(ps.norm(ce))
-                if c == ("discr", ("pre", 1)) and taken in (0, 1):
+                # (`self`, `self.as_ref()`, `&*self`: the same Option as far as present / absent goes)
+                on_self = c[0] == "discr" and ps.core(c[1]) == ("pre", 1) and ps.field_chain(c[1])[1] == []
+                if on_self and taken in (0, 1):
                     which = taken
-                elif c == ("discr", ("pre", 1)) and taken == "else" and len(listed) == 1 and listed[0] in (0, 1):
+                elif on_self and taken == "else" and len(listed) == 1 and listed[0] in (0, 1):
                     which = 1 - listed[0]
+                elif c[0] == "call" and c[2] and ps.core(c[2][0]) == ("pre", 1) and c[1].endswith(("Option::<T>::is_some", "Option::<T>::is_none")):
+                    truth = (taken == "else") if listed == [0] else (taken != 0)
+                    which = int(truth) if c[1].endswith("is_some") else int(not truth)
             e = ps.strip(ps.norm(env.get(0, ("konst", "no value"))))
             if which is None:
                 chk.fail("C12-h/option-writer", "Option<T>::serialize_tagged", "a path does not test whether the field is present (result %s)"
